@@ -91,6 +91,26 @@ def conv_calls(tier, rng):
                     d = start + timedelta(seconds=t)
                     r = both(lambda: p.dateToIdx(d))
                     calls.append(dict(op="pd2ix", g=g, span=span, x=t, **r))
+    # long windows (three years): instants and indices far from the project start -- seconds beyond 2^24 must not lose precision
+    for g in (60, 900, 3600) if tier == "quick" else (60, 300, 900, 1800, 3600):
+        start = datetime(2024, 1, 1)
+        span = 3 * 365 * 86400
+        p = PJ.Project("p", "P", "1")
+        p["start"] = start
+        p["end"] = start + timedelta(seconds=span)
+        p.attributes["scheduleGranularity"] = g
+        r = both(lambda: p.scoreboardSize())
+        calls.append(dict(op="psize", g=g, span=span, **r))
+        for day in (150, 194, 195, 400, 777, 778, 1000, 1094):
+            k0 = day * 86400 // g
+            for k in (k0, k0 + 1, k0 + 7):
+                for dlt in (-1, 0, 1, g // 2, g - 1):
+                    t = k * g + dlt
+                    d = start + timedelta(seconds=t)
+                    r = both(lambda: p.dateToIdx(d))
+                    calls.append(dict(op="pd2i", g=g, span=span, x=t, **r))
+                r = both(lambda: secs(start, p.idxToDate(k)))
+                calls.append(dict(op="pi2d", g=g, span=span, x=k, **r))
     return calls
 
 
@@ -122,6 +142,7 @@ def run_calls(tier, rng):
     return calls
 
 
+DAYN = ["mon", "tue", "wed", "thu", "fri", "sat", "sun"]
 TABLES = [
     {d: [(540, 1020)] for d in range(5)},
     {d: [(480, 720), (780, 1020)] for d in range(7)},
@@ -179,6 +200,29 @@ def hours_calls(tier, rng):
             if ivs and all(b > a for a, b in ivs):
                 r = both(lambda: int(round(wh.get_daily_hours(d) * 60 * 1000000)))
                 calls.append(dict(op="dailymin", h=ti, d=d, **r))
+    # a table that was COPIED from another one (attribute inheritance deep-copies working hours) and then got an interval of
+    # its own: both objects are asked about the same minutes, alternately -- neither may answer for the other
+    import copy
+    for ti, tab in enumerate(TABLES[:4]):
+        wh_a = WH.WorkingHours(p)
+        for d, ivs in tab.items():
+            for a, b in ivs:
+                wh_a.set_hours([DAYN[d]], [("%02d:%02d" % (a // 60, a % 60), "%02d:%02d" % (b // 60, b % 60))])
+        if not tab:
+            continue
+        wh_b = copy.deepcopy(wh_a)
+        wh_b.set_hours(["fri"], [("05:10", "06:20")])
+        tab_b = {d: list(ivs) for d, ivs in tab.items()}
+        tab_b.setdefault(4, []).append((310, 380))
+        ha, hb = len(jt), len(jt) + 1
+        jt.append([[[a, b] for a, b in tab.get(d, [])] for d in range(7)])
+        jt.append([[[a, b] for a, b in tab_b.get(d, [])] for d in range(7)])
+        for y in list(range(300, 390, 5)) + [309, 310, 311, 379, 380, 381]:
+            idx = 4 * 1440 + y
+            first, second = ((wh_a, ha), (wh_b, hb)) if (y // 5) % 2 == 0 else ((wh_b, hb), (wh_a, ha))
+            for wh_x, hx in (first, second):
+                r = both(lambda: bool(wh_x.onShift(idx)))
+                calls.append(dict(op="onshift", h=hx, d=4, y=y, **r))
     return calls, jt
 
 
